@@ -700,6 +700,13 @@ func mutate(e emitter, reg *s.Reg, rootNode *s.Node, base *s.V, prefix s.Path, l
 		node := base.At(st.Path)
 		if st.IsMapNode {
 			e.emit("unk:"+vh.HexS(unkKey), st.Path, none, base.InsertKey(st.Path, unkKey, s.Int(1)))
+			// the same key written without a value (`key:` / `key: ~`)
+			e.emit("unk:"+vh.HexS(unkKey), st.Path, none, base.InsertKey(st.Path, unkKey, s.Null()))
+			if len(node.M) > 0 {
+				if k := node.M[len(node.M)-1].Key + "s"; node.Get(k) == nil {
+					e.emit("unk:"+vh.HexS(k), st.Path, none, base.InsertKey(st.Path, k, s.Null()))
+				}
+			}
 			if len(node.M) > 0 {
 				k := node.M[len(node.M)-1].Key
 				miss := k + "s"
@@ -780,7 +787,9 @@ func mutate(e emitter, reg *s.Reg, rootNode *s.Node, base *s.V, prefix s.Path, l
 					ce = caseEnv{env: map[string]string{envVar: text}}
 					ph = "${env:" + envVar + "}"
 				} else {
-					ce = caseEnv{props: map[string]string{propFile + "#" + propKey: text}}
+					// the file also holds keys that extend the asked one (k10 is listed before k1, k1x after it)
+					ce = caseEnv{props: map[string]string{propFile + "#" + propKey: text,
+						propFile + "#" + propKey + "0": "other-" + text, propFile + "#" + propKey + "x": "another"}}
 					ph = "${property:" + propFile + "#" + propKey + "}"
 				}
 				if !literalConstructs(e, base.ReplaceAt(st.Path, val)) {
@@ -795,6 +804,9 @@ func mutate(e emitter, reg *s.Reg, rootNode *s.Node, base *s.V, prefix s.Path, l
 			}
 			e.emit("phe", st.Path, none, base.ReplaceAt(st.Path, s.Str("${env:"+envUnset+"}")))
 			e.emit("phe", st.Path, caseEnv{props: map[string]string{propFile + "#other": "1"}}, base.ReplaceAt(st.Path, s.Str("${property:"+propFile+"#"+propKey+"}")))
+			// a missing property whose name is a proper prefix of existing keys
+			e.emit("phe", st.Path, caseEnv{props: map[string]string{propFile + "#" + propKey + "0": "1", propFile + "#" + propKey + "x": "2"}},
+				base.ReplaceAt(st.Path, s.Str("${property:"+propFile+"#"+propKey+"}")))
 		}
 		// a required value left out
 		if _, req := hasTagH(st.Validate, "required"); req && len(st.Path) > 0 && !st.Path[len(st.Path)-1].IsIdx {
